@@ -47,12 +47,13 @@ Fixpoint secrets_ok (tr : list event) : bool :=
 
 (** timed version for quiescent (one request at a time) histories: the most
     recent successful unlock, if it had a timeout, has not expired.  A timeout
-    of 0 means "no timeout".  Timer expiry is not an event here: it is implied
-    by the clock. *)
+    of 0 means "no timeout"; negative timeouts are not constrained (the code
+    expires them at once, or, below -9223372036, after an int64 wrap-around).
+    Timer expiry is not an event here: it is implied by the clock. *)
 Fixpoint auth_timed (tr : list event) (t : Z) : bool :=
   match tr with
   | [] => false
-  | EUnlock _ T tu :: _ => (T =? 0) || (t <=? tu + second * Z.max 0 T)
+  | EUnlock _ T tu :: _ => (T <=? 0) || (t <=? tu + second * T)
   | ELock _ :: _ | ERestart :: _ => false
   | _ :: tl => auth_timed tl t
   end.
